@@ -15,3 +15,4 @@ import PqVerif.Props.C01
 import PqVerif.Props.C05
 import PqVerif.Props.C02
 import PqVerif.Props.C08
+import PqVerif.Props.C17
